@@ -37,7 +37,7 @@ fn set(c: &Clock) -> Row {
 /// 10: "HH:MI AM" with empty text            11: "SS" (i[4])
 /// 12: ".FF" (i[4] = microseconds/1000)      13: short year alone Y{n} (i[4] = n, i[5] = value)
 /// 14: "DD HH:MI PM" day + 12-hour time (i[4] day, i[5] hour12, i[6] minute, i[7] pm)
-pub const TIME_PICS: [&[&str]; 12] = [
+pub const TIME_PICS: [&[&str]; 16] = [
     &["HH24", ":", "MI", ":", "SS", ".", "FF"],
     &["HH", ":", "MI", ":", "SS", " ", "AM"],
     &["AM", " ", "HH", ":", "MI", ":", "SS"],
@@ -50,6 +50,11 @@ pub const TIME_PICS: [&[&str]; 12] = [
     &["PM", ":", "MI", ":", "HH"],
     &["SS", ".", "FF", " ", "MI", " ", "HH24"],
     &["HH12", " ", "PM", " ", "MI", ":", "SS"],
+    // a meridian without any hour token: the omitted 12-hour field is 12, read with the meridian
+    &["PM"],
+    &["MI", " ", "P.M."],
+    &["AM", ":", "MI", ":", "SS"],
+    &["SS", ".", "FF3", " ", "A.M."],
 ];
 
 pub fn check_default(kind: Kind, clock: Clock, spec: &[i128]) -> Result<(), String> {
@@ -175,6 +180,13 @@ pub fn check_default(kind: Kind, clock: Clock, spec: &[i128]) -> Result<(), Stri
                 }
             } else if spelled(&["HH24"]) {
                 h
+            } else if !toks.contains(&"HH24") && spelled(&mer) {
+                // no hour token at all: 12 AM = 00:xx, 12 PM = 12:xx
+                if h < 12 {
+                    0
+                } else {
+                    12
+                }
             } else {
                 0
             };
@@ -749,7 +761,7 @@ pub fn run(ctx: &Ctx) -> (Stats, Report) {
     let _ = Time::ZERO;
 
     let rep = Report {
-        rule: format!("The injected clock (cargo feature verif-hooks, thread-local) ranges over ALL 3,652,059 possible current local dates x {} time(s) of day (thorough: midnight, 00:00:00.5, 12:34:56.789012, 23:59:59.999999 under every date; quick: one of those five classes incl. 00:00:00.000001 per date, rotating with the date). Under each clock: partial pictures \"\", DD (1, 28..31, month length +-), MM, MM-DD, MON DD, YYYY, YYYY-DD, DDD (incl. 365/366), Y / YY / YYY with value classes (all values for Y/YY in thorough) alone and with month/day, with a leading '+' and with a '-' (which denotes no date), the same partial pictures with a field that is present but outside its domain (month 0 / 13, day 0 / 32, day of year 0 / 367, year 0: no date, whatever the clock), a weekday token without any day field (the 1st of the resolved month, accepted with its own weekday and rejected with another), a fraction carrying out of 23:59:59 under pictures that take year / month from the clock, HH24:MI, HH:MI AM with empty text, SS, .FF, DD HH:MI PM, an omission grid (12 time-part pictures in several field orders, meridian before or after the 12-hour field, text ending after every token; also swept exhaustively under 7 clocks), rotated over Date / Timestamp / OracleDate; Date::now, Timestamp::now, OracleDate::now, Timestamp::try_from(Time), OracleDate::try_from(Time); the same constructors with the clock inside a leap second (second 59 + 1,000,000..1,999,999 us: an error or an in-range value within those two seconds). Every parse goes through T::parse, a fresh Formatter and a long-lived Formatter (compiled once per thread and picture, so it has parsed under many other current dates before). Once per run, before any worker thread starts, the five clock readers are also called WITHOUT the hook under a process time zone 13 hours east or west of UTC (whichever makes the local date differ from the UTC date at that moment): they must agree on the local date. Oracle: model defaults (year and month from the clock, day 1, time 0, 12 for an omitted 12-hour field, short years completed with the leading digits of the clock year) validated by the walked calendar (so DD=31 in a 30-day current month, DDD=366 in a common current year, a completed year 0 are errors). Complete pictures (14 shapes incl. weekday + day of year with and without month / day x date pool) must give the identical value under 9 different clocks incl. both range ends. Non-trivial = clock at a month end / year end / century-end year / 29 Feb / year < 1000 / year 9999; distinct by enumeration.", tods.len()),
+        rule: format!("The injected clock (cargo feature verif-hooks, thread-local) ranges over ALL 3,652,059 possible current local dates x {} time(s) of day (thorough: midnight, 00:00:00.5, 12:34:56.789012, 23:59:59.999999 under every date; quick: one of those five classes incl. 00:00:00.000001 per date, rotating with the date). Under each clock: partial pictures \"\", DD (1, 28..31, month length +-), MM, MM-DD, MON DD, YYYY, YYYY-DD, DDD (incl. 365/366), Y / YY / YYY with value classes (all values for Y/YY in thorough) alone and with month/day, with a leading '+' and with a '-' (which denotes no date), the same partial pictures with a field that is present but outside its domain (month 0 / 13, day 0 / 32, day of year 0 / 367, year 0: no date, whatever the clock), a weekday token without any day field (the 1st of the resolved month, accepted with its own weekday and rejected with another), a fraction carrying out of 23:59:59 under pictures that take year / month from the clock, HH24:MI, HH:MI AM with empty text, SS, .FF, DD HH:MI PM, an omission grid (16 time-part pictures in several field orders, meridian before or after the 12-hour field or without any hour token, text ending after every token; also swept exhaustively under 7 clocks), rotated over Date / Timestamp / OracleDate; Date::now, Timestamp::now, OracleDate::now, Timestamp::try_from(Time), OracleDate::try_from(Time); the same constructors with the clock inside a leap second (second 59 + 1,000,000..1,999,999 us: an error or an in-range value within those two seconds). Every parse goes through T::parse, a fresh Formatter and a long-lived Formatter (compiled once per thread and picture, so it has parsed under many other current dates before). Once per run, before any worker thread starts, the five clock readers are also called WITHOUT the hook under a process time zone 13 hours east or west of UTC (whichever makes the local date differ from the UTC date at that moment): they must agree on the local date. Oracle: model defaults (year and month from the clock, day 1, time 0, 12 for an omitted 12-hour field, short years completed with the leading digits of the clock year) validated by the walked calendar (so DD=31 in a 30-day current month, DDD=366 in a common current year, a completed year 0 are errors). Complete pictures (14 shapes incl. weekday + day of year with and without month / day x date pool) must give the identical value under 9 different clocks incl. both range ends. Non-trivial = clock at a month end / year end / century-end year / 29 Feb / year < 1000 / year 9999; distinct by enumeration.", tods.len()),
         assumptions: vec!["the hook only replaces the value of chrono::Local::now().naive_local() at the six places the library reads it; with the feature off the code is the original".into()],
         exhaustive: true,
         extra: Default::default(),
